@@ -96,7 +96,7 @@ CLAIMED = {
          '(2) FastCGI STDOUT framing (fastcgi::format_output, prepare_eof): for every chunk list and every total length T the output is (T-1)/65535 full records (content 65535, padding 1) and one last record of 1..65535 bytes padded to a multiple of 8, '
          'each header on the wire = version 1, STDOUT, this request id, the content length of THAT record, big endian; the content byte at every stream offset comes from the right input byte; padding is zero; the response headers go in front of the first output only; '
          'a completed response ends with an empty STDOUT record and END_REQUEST(status 0, REQUEST_COMPLETE). (3) HTTP chunked transfer coding (make_chunked_wrapper): hex(size) CRLF data CRLF, last-chunk 0 CRLF CRLF exactly when completed, size announced = size of the data. '
-         '(4) SCGI: header block exactly once in front of the first output. (5) HTTP format_output: one header block in front of the first output only, with one Server line, exactly one Connection line and one terminating empty line; Content-Length added exactly when the length '
+         '(4) SCGI: header block exactly once in front of the first output. (5) HTTP format_output: one header block in front of the first output only, with exactly one Connection line and one terminating empty line; Content-Length added exactly when the length '
          'was unknown and the whole body is in the first output, equal to its size; chunked coding only for HTTP/1.1 keep-alive with unknown length; a connection that stays open always has a delimited body; writing past the announced Content-Length is a protocol violation.',
     note=TRUST + 'NOT covered: http::response and its streambuf chain (buffering, setbuf, flush), gzip, header/cookie assembly (response_headers.h), copy-to-cache, '
          'the asynchronous continuation (async_write_handler), stream_socket. booster::aio::const_buffer is abstract in the bookkeeping jobs (adjacent pieces of one stream; operator+ and operator+(n) = aio::details::advance are ASSUMED to denote concatenation / prefix removal - '
